@@ -11,5 +11,5 @@ for P in "$@"; do
   echo "neutral=$S check=$P exit=$RC $(grep -m1 'signature' /tmp/neutralrun-$S-$P.log)"
   [ $RC = 0 ] || RCALL=1
 done
-git -C /repo worktree remove --force $WT
+git -C /repo worktree remove --force $WT; rm -rf $WT.verif-out
 exit $RCALL
